@@ -106,6 +106,34 @@ def gen(rng):
     return "\n".join(out)
 
 
+def _base(t):
+    while t["k"] != "named":
+        t = t["t"]
+    return t["n"]
+
+
+def defaults_off_cycles(items):
+    """the premise of Lean's build_exact_defaults_off_cycles, on the wire format: no input object type that has a defaulted
+    field (extension blocks merged) reaches itself through the field types of input objects"""
+    fields = {}
+    for it in items:
+        if it["k"] in ("type", "ext") and it["kind"] == "input":
+            fields.setdefault(it["name"], []).extend(it["input_fields"])
+    edges = {n: {_base(f["type"]) for f in fs} for n, fs in fields.items()}
+
+    def reaches(a, b):
+        seen, todo = set(), list(edges.get(a, ()))
+        while todo:
+            x = todo.pop()
+            if x == b:
+                return True
+            if x not in seen:
+                seen.add(x)
+                todo.extend(edges.get(x, ()))
+        return False
+    return all(not reaches(n, n) for n, fs in fields.items() if any(f.get("default") is not None for f in fs))
+
+
 def collect(ctx, real_build, sdl, doc_json, canon):
     """named probes, then the stream; returns the cases for `build_p`"""
     from py_gql.lang import parse
@@ -150,6 +178,13 @@ def compare(ctx, cases, canon, sort_dump, diff_path, what="in-progress"):
             else:
                 same = a.get("err") == real[1]
             ctx.stat("in-progress:one-hidden-type-model:%s" % ("agrees" if same else "differs"))
+            if defaults_off_cycles(items):
+                # … but where the premise of build_exact_defaults_off_cycles holds the model of the theorems MUST agree with the code
+                ctx.stat("in-progress:defaults-off-cycles")
+                if not same:
+                    ctx.fail("corr:in-progress:defaults-off-cycles:model-differs", "the defaults sit off the cycles of input objects, yet the model of "
+                             "the theorems and the implementation differ", {"sdl": text, "flags": flags, "additional": wire, "inprogress": label,
+                                                                           "model": a if "ok" not in a else "ok"}, kind="correspondence")
     for (label, text, items, flags, wire, real), a in zip(cases, ctx.driver.ask(reqs)):
         ctx.count()
         sig = label if label.startswith("probe:") else what
